@@ -1,10 +1,47 @@
-// ptsup: ptrace supervisor. Modes:
-//   ptsup count <root> <logfile> -- cmd args...   : run to completion, log every fs-mutating syscall under <root>
-//   ptsup kill  <root> <logfile> <N> -- cmd args... : SIGKILL the whole tracee group right before the N-th such syscall
+// ptsup: ptrace supervisor used by the crash engine (E-CRASH; checks C03, C16).
+//
+//   ptsup count <root> <logfile>     -- cmd args...
+//       run cmd to completion and log every file-system-mutating system call whose
+//       path lies under <root> (all threads and children, one global counter)
+//   ptsup kill  <root> <logfile> <N> -- cmd args...
+//       same, but SIGKILL the whole tracee tree at the syscall-enter stop of the N-th
+//       such call, i.e. immediately before the call takes effect
+//
+// Log format (one line per counted call, written at the enter stop):
+//       <count> <tid> <name> <path1> <path2|-> <flags-hex>
+//   last line:  "KILL before <N>"            (kill performed; exit status 137)
+//           or  "TOTAL <count> exit <code>"  (victim ended by itself; its status is passed on,
+//                                             128+sig when it died from a signal)
+// Exit status: 137 kill performed; victim status otherwise (values >= 200 are mapped to 199);
+//   200 usage, 201 cannot trace/fork, 202 exec failed, 203 supervisor interrupted.
+//
+// What counts as fs-mutating: open/openat/openat2/creat with a write access mode or
+// O_CREAT/O_TRUNC, write/pwrite64/writev/pwritev/pwritev2, copy_file_range, sendfile (out fd),
+// fsync/fdatasync/sync_file_range, ftruncate/truncate/fallocate, rename/renameat/renameat2,
+// unlink/unlinkat/rmdir, mkdir/mkdirat, link/linkat/symlink/symlinkat, utimensat/utimes/futimesat,
+// fchown/fchownat/chown/lchown, fchmod/fchmodat/chmod. Writes through mmap (SQLite's -shm) are
+// invisible to a syscall supervisor.
+//
+// Speed: by default the victim gets a seccomp-BPF filter that returns SECCOMP_RET_TRACE for the
+// calls listed above only, so every other system call (futex, epoll, mmap, read, ...) runs
+// untraced and the supervisor is woken just for candidates (PTRACE_EVENT_SECCOMP, which is
+// reported before the call executes, like a syscall-enter stop). PTSUP_NOSECCOMP=1 selects the
+// plain PTRACE_SYSCALL mode (every call stops twice); both modes count identically.
+//
+// Entry and exit stops are told apart with PTRACE_GET_SYSCALL_INFO (no per-thread toggle that
+// could get out of step); the thread table only serves to recognise the initial SIGSTOP of a new
+// thread and grows on demand.
 #define _GNU_SOURCE
 #include <errno.h>
 #include <fcntl.h>
+#include <limits.h>
+#include <linux/audit.h>
+#include <linux/filter.h>
+#include <linux/seccomp.h>
+#include <stddef.h>
+#include <sys/prctl.h>
 #include <signal.h>
+#include <stdint.h>
 #include <stdio.h>
 #include <stdlib.h>
 #include <string.h>
@@ -12,36 +49,70 @@
 #include <sys/syscall.h>
 #include <sys/types.h>
 #include <sys/uio.h>
-#include <sys/user.h>
 #include <sys/wait.h>
 #include <unistd.h>
 
-#define MAXT 4096
-static struct { pid_t tid; int insys; } T[MAXT];
-static int nT;
+#define EXIT_USAGE 200
+#define EXIT_TRACE 201
+#define EXIT_EXEC 202
+#define EXIT_INTR 203
 
-static int *state(pid_t tid) {
-  for (int i = 0; i < nT; i++) if (T[i].tid == tid) return &T[i].insys;
-  if (nT < MAXT) { T[nT].tid = tid; T[nT].insys = 0; return &T[nT++].insys; }
-  return NULL;
+// --- tid sets (open addressing, grow on demand; no fixed thread limit) -------------------------
+struct tidset { pid_t *t; size_t cap, n; };
+static size_t ts_slot(const struct tidset *s, pid_t tid, pid_t *t, size_t cap) {
+  (void)s;
+  size_t i = ((size_t)tid * 2654435761u) & (cap - 1);
+  while (t[i] != 0 && t[i] != tid) i = (i + 1) & (cap - 1);
+  return i;
 }
-static void forget(pid_t tid) {
-  for (int i = 0; i < nT; i++) if (T[i].tid == tid) { T[i] = T[--nT]; return; }
-}
-
-static int readstr(pid_t pid, unsigned long addr, char *buf, size_t n) {
-  struct iovec l = {buf, n - 1}, r = {(void *)addr, n - 1};
-  ssize_t k = process_vm_readv(pid, &l, 1, &r, 1, 0);
-  if (k <= 0) {
-    // fall back to shorter read (page boundary)
-    size_t m = 4096 - (addr & 4095);
-    if (m > n - 1) m = n - 1;
-    l.iov_len = r.iov_len = m;
-    k = process_vm_readv(pid, &l, 1, &r, 1, 0);
-    if (k <= 0) { buf[0] = 0; return -1; }
+static int ts_has(const struct tidset *s, pid_t tid) { return s->cap && s->t[ts_slot(s, tid, s->t, s->cap)] == tid; }
+static void ts_add(struct tidset *s, pid_t tid) {
+  if ((s->n + 1) * 2 > s->cap) {
+    size_t ncap = s->cap ? s->cap * 2 : 256;
+    pid_t *nt = calloc(ncap, sizeof *nt);
+    if (!nt) { perror("ptsup: calloc"); exit(201); }
+    for (size_t i = 0; i < s->cap; i++)
+      if (s->t[i] > 0) nt[ts_slot(s, s->t[i], nt, ncap)] = s->t[i];
+    free(s->t);
+    s->t = nt;
+    s->cap = ncap;
   }
-  buf[k] = 0;
-  buf[strnlen(buf, k)] = 0;
+  size_t i = ts_slot(s, tid, s->t, s->cap);
+  if (s->t[i] != tid) { s->t[i] = tid; s->n++; }
+}
+// all: every tid ever seen (exited ones stay: a stale entry only costs a failing tkill);
+// started: tids whose initial SIGSTOP has been consumed.
+static struct tidset all, started;
+
+// --- reading tracee memory ------------------------------------------------------------------
+static int readstr(pid_t pid, unsigned long addr, char *buf, size_t n) {
+  buf[0] = 0;
+  if (!addr) return -1;
+  size_t got = 0;
+  while (got < n - 1) {
+    size_t chunk = 4096 - ((addr + got) & 4095); // never cross a page in one call
+    if (chunk > n - 1 - got) chunk = n - 1 - got;
+    struct iovec l = {buf + got, chunk}, r = {(void *)(addr + got), chunk};
+    ssize_t k = process_vm_readv(pid, &l, 1, &r, 1, 0);
+    if (k <= 0) {
+      // fall back to PTRACE_PEEKDATA word by word
+      size_t i = 0;
+      for (; i < chunk; i += sizeof(long)) {
+        errno = 0;
+        long w = ptrace(PTRACE_PEEKDATA, pid, (void *)(addr + got + i), 0);
+        if (errno) break;
+        size_t m = sizeof(long);
+        if (m > chunk - i) m = chunk - i;
+        memcpy(buf + got + i, &w, m);
+      }
+      if (i == 0) { buf[got] = 0; return got ? 0 : -1; }
+      k = (ssize_t)(i > chunk ? chunk : i);
+    }
+    size_t z = strnlen(buf + got, (size_t)k);
+    if (z < (size_t)k) return 0; // terminator found
+    got += (size_t)k;
+  }
+  buf[n - 1] = 0;
   return 0;
 }
 static void fdpath(pid_t pid, int fd, char *buf, size_t n) {
@@ -51,124 +122,400 @@ static void fdpath(pid_t pid, int fd, char *buf, size_t n) {
   if (k < 0) k = 0;
   buf[k] = 0;
 }
+// path argument relative to dirfd -> absolute (best effort)
+static void atpath(pid_t pid, int dirfd, unsigned long addr, char *buf, size_t n) {
+  char rel[PATH_MAX];
+  if (readstr(pid, addr, rel, sizeof rel) < 0) { buf[0] = 0; return; }
+  if (rel[0] == '/') { snprintf(buf, n, "%s", rel); return; }
+  char base[PATH_MAX];
+  if (dirfd == AT_FDCWD) {
+    char p[64];
+    snprintf(p, sizeof p, "/proc/%d/cwd", pid);
+    ssize_t k = readlink(p, base, sizeof base - 1);
+    if (k < 0) k = 0;
+    base[k] = 0;
+  } else {
+    fdpath(pid, dirfd, base, sizeof base);
+  }
+  if (rel[0] == 0) snprintf(buf, n, "%s", base); // AT_EMPTY_PATH style
+  else snprintf(buf, n, "%s/%s", base, rel);
+}
+static int under(const char *p, const char *root, size_t rootlen) {
+  return p[0] && !strncmp(p, root, rootlen) && (p[rootlen] == '/' || p[rootlen] == 0 || p[rootlen] == ' ');
+}
+
+// --- PTRACE_GET_SYSCALL_INFO (own copy of the layout: header clashes between glibc/linux) -----
+struct sysinfo_ {
+  uint8_t op; // 0 none, 1 entry, 2 exit, 3 seccomp
+  uint8_t pad[3];
+  uint32_t arch;
+  uint64_t ip, sp;
+  union {
+    struct { uint64_t nr, args[6]; } entry;
+    struct { int64_t rval; uint8_t is_error; } exit;
+  };
+};
+#ifndef PTRACE_GET_SYSCALL_INFO
+#define PTRACE_GET_SYSCALL_INFO 0x420e
+#endif
+
+static pid_t child;
+static volatile sig_atomic_t interrupted;
+static void on_signal(int s) { (void)s; interrupted = 1; }
+
+static void kill_tree(void) {
+  kill(-child, SIGKILL); // the victim's process group (set by both sides of the fork)
+  kill(child, SIGKILL);
+  for (size_t i = 0; i < all.cap; i++) // anything that left the group is still a tracee
+    if (all.t[i] > 0) syscall(SYS_tkill, all.t[i], SIGKILL);
+  int st;
+  for (;;) {
+    pid_t w = waitpid(-1, &st, __WALL);
+    if (w > 0) continue;
+    if (errno == EINTR) continue;
+    break;
+  }
+}
+
+
+// --- seccomp filter: trace only candidate calls -------------------------------------------------
+static const long candidates[] = {
+  SYS_openat,
+#ifdef SYS_openat2
+  SYS_openat2,
+#endif
+#ifdef SYS_open
+  SYS_open,
+#endif
+#ifdef SYS_creat
+  SYS_creat,
+#endif
+  SYS_write, SYS_pwrite64, SYS_writev, SYS_pwritev,
+#ifdef SYS_pwritev2
+  SYS_pwritev2,
+#endif
+  SYS_copy_file_range, SYS_sendfile, SYS_fsync, SYS_fdatasync,
+#ifdef SYS_sync_file_range
+  SYS_sync_file_range,
+#endif
+  SYS_ftruncate, SYS_fallocate, SYS_fchown, SYS_fchmod, SYS_truncate,
+#ifdef SYS_rename
+  SYS_rename,
+#endif
+#ifdef SYS_renameat
+  SYS_renameat,
+#endif
+  SYS_renameat2,
+#ifdef SYS_unlink
+  SYS_unlink,
+#endif
+  SYS_unlinkat,
+#ifdef SYS_rmdir
+  SYS_rmdir,
+#endif
+#ifdef SYS_mkdir
+  SYS_mkdir,
+#endif
+  SYS_mkdirat,
+#ifdef SYS_link
+  SYS_link,
+#endif
+  SYS_linkat,
+#ifdef SYS_symlink
+  SYS_symlink,
+#endif
+  SYS_symlinkat, SYS_utimensat,
+#ifdef SYS_utimes
+  SYS_utimes,
+#endif
+#ifdef SYS_futimesat
+  SYS_futimesat,
+#endif
+  SYS_fchownat, SYS_fchmodat,
+#ifdef SYS_chown
+  SYS_chown,
+#endif
+#ifdef SYS_lchown
+  SYS_lchown,
+#endif
+#ifdef SYS_chmod
+  SYS_chmod,
+#endif
+};
+#if defined(__x86_64__)
+#define PTSUP_AUDIT_ARCH AUDIT_ARCH_X86_64
+#elif defined(__aarch64__)
+#define PTSUP_AUDIT_ARCH AUDIT_ARCH_AARCH64
+#endif
+
+// called in the child between the tracing stop and exec
+static int install_filter(void) {
+#ifdef PTSUP_AUDIT_ARCH
+  enum { NC = sizeof candidates / sizeof candidates[0] };
+  struct sock_filter f[4 + 2 * NC + 1];
+  int n = 0;
+  f[n++] = (struct sock_filter)BPF_STMT(BPF_LD | BPF_W | BPF_ABS, offsetof(struct seccomp_data, arch));
+  f[n++] = (struct sock_filter)BPF_JUMP(BPF_JMP | BPF_JEQ | BPF_K, PTSUP_AUDIT_ARCH, 1, 0);
+  f[n++] = (struct sock_filter)BPF_STMT(BPF_RET | BPF_K, SECCOMP_RET_ALLOW); // foreign ABI: not traced
+  f[n++] = (struct sock_filter)BPF_STMT(BPF_LD | BPF_W | BPF_ABS, offsetof(struct seccomp_data, nr));
+  for (int i = 0; i < NC; i++) {
+    f[n++] = (struct sock_filter)BPF_JUMP(BPF_JMP | BPF_JEQ | BPF_K, (unsigned)candidates[i], 0, 1);
+    f[n++] = (struct sock_filter)BPF_STMT(BPF_RET | BPF_K, SECCOMP_RET_TRACE);
+  }
+  f[n++] = (struct sock_filter)BPF_STMT(BPF_RET | BPF_K, SECCOMP_RET_ALLOW);
+  struct sock_fprog prog = {.len = (unsigned short)n, .filter = f};
+  if (prctl(PR_SET_NO_NEW_PRIVS, 1, 0, 0, 0) < 0) return -1;
+  if (prctl(PR_SET_SECCOMP, SECCOMP_MODE_FILTER, &prog) < 0) return -1;
+  return 0;
+#else
+  errno = ENOSYS;
+  return -1;
+#endif
+}
 
 int main(int argc, char **argv) {
-  if (argc < 5) { fprintf(stderr, "usage\n"); return 2; }
-  int killmode = !strcmp(argv[1], "kill");
+  if (argc < 6) {
+  usage:
+    fprintf(stderr, "usage: ptsup count <root> <log> -- cmd...  |  ptsup kill <root> <log> <N> -- cmd...\n");
+    return EXIT_USAGE;
+  }
+  int killmode;
+  if (!strcmp(argv[1], "kill")) killmode = 1;
+  else if (!strcmp(argv[1], "count")) killmode = 0;
+  else goto usage;
+  char rootbuf[PATH_MAX];
   const char *root = argv[2];
-  FILE *log = fopen(argv[3], "w");
+  if (realpath(argv[2], rootbuf)) root = rootbuf; // fd paths from /proc are canonical
+  size_t rootlen = strlen(root);
+  while (rootlen > 1 && root[rootlen - 1] == '/') rootlen--;
+  const char *root2 = argv[2]; // as given: path *arguments* of the victim need not be canonical
+  size_t root2len = strlen(root2);
+  while (root2len > 1 && root2[root2len - 1] == '/') root2len--;
   long N = 0;
   int ai = 4;
-  if (killmode) { N = atol(argv[4]); ai = 5; }
-  if (strcmp(argv[ai], "--")) { fprintf(stderr, "expected --\n"); return 2; }
+  if (killmode) {
+    char *end;
+    N = strtol(argv[4], &end, 10);
+    if (*end || N < 1) goto usage;
+    ai = 5;
+  }
+  if (ai >= argc - 1 || strcmp(argv[ai], "--")) goto usage;
   ai++;
-  pid_t child = fork();
+  FILE *log = fopen(argv[3], "w");
+  if (!log) { perror("ptsup: log"); return EXIT_USAGE; }
+  setvbuf(log, NULL, _IOLBF, 0);
+
+  struct sigaction sa;
+  memset(&sa, 0, sizeof sa);
+  sa.sa_handler = on_signal;
+  sigaction(SIGTERM, &sa, NULL);
+  sigaction(SIGINT, &sa, NULL);
+  sigaction(SIGHUP, &sa, NULL);
+  signal(SIGPIPE, SIG_IGN);
+
+  int use_seccomp = 1;
+#ifndef PTSUP_AUDIT_ARCH
+  use_seccomp = 0;
+#endif
+  { const char *e = getenv("PTSUP_NOSECCOMP"); if (e && *e && strcmp(e, "0")) use_seccomp = 0; }
+  const int resume = use_seccomp ? PTRACE_CONT : PTRACE_SYSCALL;
+
+  child = fork();
+  if (child < 0) { perror("ptsup: fork"); return EXIT_TRACE; }
   if (child == 0) {
     setpgid(0, 0);
-    ptrace(PTRACE_TRACEME, 0, 0, 0);
+    signal(SIGPIPE, SIG_DFL);
+    if (ptrace(PTRACE_TRACEME, 0, 0, 0) < 0) { perror("ptsup: traceme"); _exit(EXIT_TRACE); }
     raise(SIGSTOP);
+    if (use_seccomp && install_filter() < 0) { perror("ptsup: seccomp filter (set PTSUP_NOSECCOMP=1)"); _exit(EXIT_TRACE); }
     execvp(argv[ai], argv + ai);
-    perror("exec");
-    _exit(127);
+    perror("ptsup: exec");
+    _exit(EXIT_EXEC);
   }
+  setpgid(child, child); // both sides: no window in which the group does not exist
   int st;
-  waitpid(child, &st, 0);
-  long opts = PTRACE_O_TRACESYSGOOD | PTRACE_O_TRACECLONE | PTRACE_O_TRACEFORK | PTRACE_O_TRACEVFORK | PTRACE_O_TRACEEXEC | PTRACE_O_EXITKILL;
-  ptrace(PTRACE_SETOPTIONS, child, 0, opts);
-  ptrace(PTRACE_SYSCALL, child, 0, 0);
+  if (waitpid(child, &st, 0) < 0 || !WIFSTOPPED(st)) {
+    fprintf(stderr, "ptsup: victim did not stop for tracing\n");
+    kill(child, SIGKILL);
+    return EXIT_TRACE;
+  }
+  ts_add(&all, child);
+  ts_add(&started, child);
+  long opts = (use_seccomp ? PTRACE_O_TRACESECCOMP : 0) | PTRACE_O_TRACESYSGOOD | PTRACE_O_TRACECLONE | PTRACE_O_TRACEFORK | PTRACE_O_TRACEVFORK | PTRACE_O_TRACEEXEC | PTRACE_O_EXITKILL;
+  if (ptrace(PTRACE_SETOPTIONS, child, 0, opts) < 0) {
+    perror("ptsup: setoptions");
+    kill(child, SIGKILL);
+    return EXIT_TRACE;
+  }
+  ptrace(resume, child, 0, 0);
+
   long count = 0;
   int exitcode = 0;
-  size_t rootlen = strlen(root);
+  const int have_info = 1;
   for (;;) {
+    if (interrupted) {
+      fprintf(log, "INTERRUPTED after %ld\n", count);
+      kill_tree();
+      fclose(log);
+      return EXIT_INTR;
+    }
     pid_t tid = waitpid(-1, &st, __WALL);
-    if (tid < 0) { if (errno == ECHILD) break; if (errno == EINTR) continue; break; }
+    if (tid < 0) {
+      if (errno == EINTR) continue;
+      break; // ECHILD: everything is gone
+    }
     if (WIFEXITED(st) || WIFSIGNALED(st)) {
       if (tid == child) exitcode = WIFEXITED(st) ? WEXITSTATUS(st) : 128 + WTERMSIG(st);
-      forget(tid);
       continue;
     }
     if (!WIFSTOPPED(st)) continue;
     int sig = WSTOPSIG(st);
     int ev = st >> 16;
-    if (sig == (SIGTRAP | 0x80)) {
-      int *ins = state(tid);
-      if (ins && !*ins) {
-        *ins = 1;
-        struct user_regs_struct r;
-        if (ptrace(PTRACE_GETREGS, tid, 0, &r) == 0) {
-          long nr = r.orig_rax;
-          char p1[4096] = "", p2[4096] = "";
-          const char *name = NULL;
-          switch (nr) {
-          case SYS_openat: {
-            int fl = (int)r.rdx;
-            if ((fl & O_ACCMODE) != O_RDONLY || (fl & (O_CREAT | O_TRUNC))) { name = "openat"; readstr(tid, r.rsi, p1, sizeof p1); }
-            break; }
-          case SYS_open: {
-            int fl = (int)r.rsi;
-            if ((fl & O_ACCMODE) != O_RDONLY || (fl & (O_CREAT | O_TRUNC))) { name = "open"; readstr(tid, r.rdi, p1, sizeof p1); }
-            break; }
-          case SYS_write: name = "write"; fdpath(tid, (int)r.rdi, p1, sizeof p1); break;
-          case SYS_pwrite64: name = "pwrite64"; fdpath(tid, (int)r.rdi, p1, sizeof p1); break;
-          case SYS_writev: name = "writev"; fdpath(tid, (int)r.rdi, p1, sizeof p1); break;
-          case SYS_pwritev: name = "pwritev"; fdpath(tid, (int)r.rdi, p1, sizeof p1); break;
-          case SYS_copy_file_range: name = "copy_file_range"; fdpath(tid, (int)r.rdx, p1, sizeof p1); break;
-          case SYS_sendfile: name = "sendfile"; fdpath(tid, (int)r.rdi, p1, sizeof p1); break;
-          case SYS_fsync: name = "fsync"; fdpath(tid, (int)r.rdi, p1, sizeof p1); break;
-          case SYS_fdatasync: name = "fdatasync"; fdpath(tid, (int)r.rdi, p1, sizeof p1); break;
-          case SYS_ftruncate: name = "ftruncate"; fdpath(tid, (int)r.rdi, p1, sizeof p1); break;
-          case SYS_fallocate: name = "fallocate"; fdpath(tid, (int)r.rdi, p1, sizeof p1); break;
-          case SYS_fchown: name = "fchown"; fdpath(tid, (int)r.rdi, p1, sizeof p1); break;
-          case SYS_fchmod: name = "fchmod"; fdpath(tid, (int)r.rdi, p1, sizeof p1); break;
-          case SYS_rename: name = "rename"; readstr(tid, r.rdi, p1, sizeof p1); readstr(tid, r.rsi, p2, sizeof p2); break;
-          case SYS_renameat: case SYS_renameat2: name = "renameat"; readstr(tid, r.rsi, p1, sizeof p1); readstr(tid, r.r10, p2, sizeof p2); break;
-          case SYS_unlink: name = "unlink"; readstr(tid, r.rdi, p1, sizeof p1); break;
-          case SYS_unlinkat: name = "unlinkat"; readstr(tid, r.rsi, p1, sizeof p1); break;
-          case SYS_rmdir: name = "rmdir"; readstr(tid, r.rdi, p1, sizeof p1); break;
-          case SYS_mkdir: name = "mkdir"; readstr(tid, r.rdi, p1, sizeof p1); break;
-          case SYS_mkdirat: name = "mkdirat"; readstr(tid, r.rsi, p1, sizeof p1); break;
-          case SYS_utimensat: name = "utimensat"; readstr(tid, r.rsi, p1, sizeof p1); break;
-          case SYS_fchownat: name = "fchownat"; readstr(tid, r.rsi, p1, sizeof p1); break;
-          case SYS_fchmodat: name = "fchmodat"; readstr(tid, r.rsi, p1, sizeof p1); break;
-          case SYS_truncate: name = "truncate"; readstr(tid, r.rdi, p1, sizeof p1); break;
-          }
-          if (name && (!strncmp(p1, root, rootlen) || !strncmp(p2, root, rootlen))) {
-            count++;
-            fprintf(log, "%ld %d %s %s %s\n", count, tid, name, p1, p2);
-            if (killmode && count == N) {
-              fprintf(log, "KILL before %ld\n", count);
-              fflush(log);
-              kill(-child, SIGKILL);
-              kill(child, SIGKILL);
-              // reap everything
-              while (waitpid(-1, &st, __WALL) > 0 || errno == EINTR) {}
-              fclose(log);
-              return 137;
-            }
+    if (sig == (SIGTRAP | 0x80) || (sig == SIGTRAP && ev == PTRACE_EVENT_SECCOMP)) {
+      struct sysinfo_ si;
+      memset(&si, 0, sizeof si);
+      long got = have_info ? ptrace(PTRACE_GET_SYSCALL_INFO, tid, (void *)sizeof si, &si) : -1;
+      if (got < 0 && have_info && (errno == EIO || errno == EINVAL)) {
+        fprintf(stderr, "ptsup: kernel lacks PTRACE_GET_SYSCALL_INFO\n");
+        kill_tree();
+        return EXIT_TRACE;
+      }
+      if (got > 0 && (si.op == 1 || si.op == 3)) { // syscall entry, or seccomp stop (same layout of nr/args)
+        ts_add(&all, tid);
+        long nr = (long)si.entry.nr;
+        uint64_t *a = si.entry.args;
+        char p1[2 * PATH_MAX + 2] = "", p2[2 * PATH_MAX + 2] = "";
+        const char *name = NULL;
+        unsigned long flags = 0;
+#define WRFLAGS(fl) (((fl) & O_ACCMODE) != O_RDONLY || ((fl) & (O_CREAT | O_TRUNC)))
+#define FD1(nm) do { name = nm; fdpath(tid, (int)a[0], p1, sizeof p1); } while (0)
+#define PATH0(nm) do { name = nm; atpath(tid, AT_FDCWD, a[0], p1, sizeof p1); } while (0)
+#define PATHAT(nm) do { name = nm; atpath(tid, (int)a[0], a[1], p1, sizeof p1); } while (0)
+        switch (nr) {
+        case SYS_openat:
+          flags = a[2];
+          if (WRFLAGS((int)a[2])) PATHAT("openat");
+          break;
+#ifdef SYS_openat2
+        case SYS_openat2: {
+          uint64_t how[3] = {0, 0, 0};
+          struct iovec l = {how, sizeof how}, r = {(void *)a[2], sizeof how};
+          if (process_vm_readv(tid, &l, 1, &r, 1, 0) > 0) flags = how[0];
+          if (WRFLAGS((int)flags)) PATHAT("openat2");
+          break; }
+#endif
+#ifdef SYS_open
+        case SYS_open:
+          flags = a[1];
+          if (WRFLAGS((int)a[1])) PATH0("open");
+          break;
+#endif
+#ifdef SYS_creat
+        case SYS_creat: flags = O_CREAT | O_WRONLY | O_TRUNC; PATH0("creat"); break;
+#endif
+        case SYS_write: FD1("write"); break;
+        case SYS_pwrite64: FD1("pwrite64"); break;
+        case SYS_writev: FD1("writev"); break;
+        case SYS_pwritev: FD1("pwritev"); break;
+#ifdef SYS_pwritev2
+        case SYS_pwritev2: FD1("pwritev2"); break;
+#endif
+        case SYS_copy_file_range: name = "copy_file_range"; fdpath(tid, (int)a[2], p1, sizeof p1); fdpath(tid, (int)a[0], p2, sizeof p2); break;
+        case SYS_sendfile: name = "sendfile"; fdpath(tid, (int)a[0], p1, sizeof p1); fdpath(tid, (int)a[1], p2, sizeof p2); break;
+        case SYS_fsync: FD1("fsync"); break;
+        case SYS_fdatasync: FD1("fdatasync"); break;
+#ifdef SYS_sync_file_range
+        case SYS_sync_file_range: FD1("sync_file_range"); break;
+#endif
+        case SYS_ftruncate: FD1("ftruncate"); break;
+        case SYS_fallocate: FD1("fallocate"); break;
+        case SYS_fchown: FD1("fchown"); break;
+        case SYS_fchmod: FD1("fchmod"); break;
+        case SYS_truncate: PATH0("truncate"); break;
+#ifdef SYS_rename
+        case SYS_rename: name = "rename"; atpath(tid, AT_FDCWD, a[0], p1, sizeof p1); atpath(tid, AT_FDCWD, a[1], p2, sizeof p2); break;
+#endif
+#ifdef SYS_renameat
+        case SYS_renameat: name = "renameat"; atpath(tid, (int)a[0], a[1], p1, sizeof p1); atpath(tid, (int)a[2], a[3], p2, sizeof p2); break;
+#endif
+        case SYS_renameat2: name = "renameat"; flags = a[4]; atpath(tid, (int)a[0], a[1], p1, sizeof p1); atpath(tid, (int)a[2], a[3], p2, sizeof p2); break;
+#ifdef SYS_unlink
+        case SYS_unlink: PATH0("unlink"); break;
+#endif
+        case SYS_unlinkat: flags = a[2]; PATHAT("unlinkat"); break;
+#ifdef SYS_rmdir
+        case SYS_rmdir: PATH0("rmdir"); break;
+#endif
+#ifdef SYS_mkdir
+        case SYS_mkdir: PATH0("mkdir"); break;
+#endif
+        case SYS_mkdirat: PATHAT("mkdirat"); break;
+#ifdef SYS_link
+        case SYS_link: name = "link"; atpath(tid, AT_FDCWD, a[0], p2, sizeof p2); atpath(tid, AT_FDCWD, a[1], p1, sizeof p1); break;
+#endif
+        case SYS_linkat: name = "linkat"; atpath(tid, (int)a[0], a[1], p2, sizeof p2); atpath(tid, (int)a[2], a[3], p1, sizeof p1); break;
+#ifdef SYS_symlink
+        case SYS_symlink: name = "symlink"; atpath(tid, AT_FDCWD, a[1], p1, sizeof p1); break;
+#endif
+        case SYS_symlinkat: name = "symlinkat"; atpath(tid, (int)a[1], a[2], p1, sizeof p1); break;
+        case SYS_utimensat:
+          name = "utimensat";
+          if (a[1]) atpath(tid, (int)a[0], a[1], p1, sizeof p1);
+          else fdpath(tid, (int)a[0], p1, sizeof p1); // futimens()
+          break;
+#ifdef SYS_utimes
+        case SYS_utimes: PATH0("utimes"); break;
+#endif
+#ifdef SYS_futimesat
+        case SYS_futimesat: PATHAT("futimesat"); break;
+#endif
+        case SYS_fchownat: PATHAT("fchownat"); break;
+        case SYS_fchmodat: PATHAT("fchmodat"); break;
+#ifdef SYS_chown
+        case SYS_chown: PATH0("chown"); break;
+#endif
+#ifdef SYS_lchown
+        case SYS_lchown: PATH0("lchown"); break;
+#endif
+#ifdef SYS_chmod
+        case SYS_chmod: PATH0("chmod"); break;
+#endif
+        }
+        if (name && (under(p1, root, rootlen) || under(p2, root, rootlen) || under(p1, root2, root2len) || under(p2, root2, root2len))) {
+          count++;
+          fprintf(log, "%ld %d %s %s %s 0x%lx\n", count, tid, name, p1[0] ? p1 : "-", p2[0] ? p2 : "-", flags);
+          if (killmode && count == N) {
+            fprintf(log, "KILL before %ld\n", count);
+            fflush(log);
+            kill_tree();
+            fclose(log);
+            return 137;
           }
         }
-      } else if (ins) {
-        *ins = 0;
       }
-      ptrace(PTRACE_SYSCALL, tid, 0, 0);
+      ptrace(resume, tid, 0, 0);
       continue;
     }
-    if (sig == SIGTRAP && ev != 0) {
-      // clone/fork/exec event
-      if (ev == PTRACE_EVENT_EXEC) { int *ins = state(tid); if (ins) *ins = 0; }
-      ptrace(PTRACE_SYSCALL, tid, 0, 0);
+    if (sig == SIGTRAP && ev != 0) { // clone / fork / vfork / exec event
+      if (ev == PTRACE_EVENT_CLONE || ev == PTRACE_EVENT_FORK || ev == PTRACE_EVENT_VFORK) {
+        unsigned long nt = 0;
+        if (ptrace(PTRACE_GETEVENTMSG, tid, 0, &nt) == 0 && nt) ts_add(&all, (pid_t)nt);
+      }
+      ptrace(resume, tid, 0, 0);
       continue;
     }
-    if (sig == SIGSTOP) {
-      // new thread/child initial stop (or a real SIGSTOP): is it new?
-      int known = 0;
-      for (int i = 0; i < nT; i++) if (T[i].tid == tid) known = 1;
-      if (!known) { state(tid); ptrace(PTRACE_SYSCALL, tid, 0, 0); continue; }
+    if (sig == SIGSTOP && !ts_has(&started, tid)) {
+      // initial stop of a new thread/child (may arrive before or after the parent's clone
+      // event): consume it exactly once per tid; any later SIGSTOP is a real signal
+      ts_add(&started, tid);
+      ts_add(&all, tid);
+      ptrace(resume, tid, 0, 0);
+      continue;
     }
-    if (sig == SIGTRAP) { ptrace(PTRACE_SYSCALL, tid, 0, 0); continue; }
-    // deliver other signals
-    ptrace(PTRACE_SYSCALL, tid, 0, sig);
+    if (sig == SIGTRAP) { ptrace(resume, tid, 0, 0); continue; }
+    ptrace(resume, tid, 0, sig); // genuine signal: deliver it
   }
+  if (exitcode >= 200) exitcode = 199;
   fprintf(log, "TOTAL %ld exit %d\n", count, exitcode);
   fclose(log);
   return exitcode;
